@@ -94,17 +94,108 @@ func storeElemCalls(fd *ast.FuncDecl) [][2]interface{} {
 	return res
 }
 
+// storeLocalClosures collects `name := func(...) {...}` / `var name = func…`
+// bindings of a function body.
+func storeLocalClosures(body ast.Node) map[string]*ast.FuncLit {
+	res := map[string]*ast.FuncLit{}
+	ast.Inspect(body, func(n ast.Node) bool {
+		switch t := n.(type) {
+		case *ast.AssignStmt:
+			for i, r := range t.Rhs {
+				if fl, ok := r.(*ast.FuncLit); ok && i < len(t.Lhs) {
+					if id, ok := t.Lhs[i].(*ast.Ident); ok {
+						res[id.Name] = fl
+					}
+				}
+			}
+		case *ast.ValueSpec:
+			for i, r := range t.Values {
+				if fl, ok := r.(*ast.FuncLit); ok && i < len(t.Names) {
+					res[t.Names[i].Name] = fl
+				}
+			}
+		}
+		return true
+	})
+	return res
+}
+
 // tlvRecords returns (type constant, value variable) of every
-// tlv.MakePrimitiveRecord call of a function body, in source order (helpers
-// inlined).
+// tlv.MakePrimitiveRecord call a function performs, in source order. Calls made
+// through a local closure or a same-package helper (`addRecord(T, &v)`) are
+// resolved by substituting the call's arguments for the helper's parameters.
 func storeTlvRecords(fd *ast.FuncDecl) [][2]string {
 	var res [][2]string
-	storeWalkCalls(fd.Body, 0, func(ce *ast.CallExpr) {
-		if exprString(ce.Fun) != "tlv.MakePrimitiveRecord" || len(ce.Args) != 2 {
-			return
+	var collect func(body ast.Node, params []string, args []ast.Expr, depth int)
+	collect = func(body ast.Node, params []string, args []ast.Expr, depth int) {
+		closures := storeLocalClosures(body)
+		subst := func(e ast.Expr) ast.Expr {
+			x := e
+			amp := false
+			if u, ok := e.(*ast.UnaryExpr); ok && u.Op == token.AND {
+				x, amp = u.X, true
+			}
+			if id, ok := x.(*ast.Ident); ok && !amp {
+				for i, p := range params {
+					if p == id.Name && i < len(args) {
+						return args[i]
+					}
+				}
+			}
+			return e
 		}
-		res = append(res, [2]string{exprString(ce.Args[0]), storeStripAmp(exprString(ce.Args[1]))})
-	})
+		ast.Inspect(body, func(n ast.Node) bool {
+			// the body of a local closure is only looked at where it is called
+			if fl, ok := n.(*ast.FuncLit); ok {
+				for _, c := range closures {
+					if c == fl {
+						return false
+					}
+				}
+			}
+			ce, ok := n.(*ast.CallExpr)
+			if !ok {
+				return true
+			}
+			name := exprString(ce.Fun)
+			if name == "tlv.MakePrimitiveRecord" && len(ce.Args) == 2 {
+				res = append(res, [2]string{exprString(subst(ce.Args[0])),
+					storeStripAmp(exprString(subst(ce.Args[1])))})
+				return true
+			}
+			id, ok := ce.Fun.(*ast.Ident)
+			if !ok || depth >= 2 {
+				return true
+			}
+			var ftype *ast.FuncType
+			var fbody *ast.BlockStmt
+			if fl, ok := closures[id.Name]; ok {
+				ftype, fbody = fl.Type, fl.Body
+			} else if !storeIsListed(id.Name) {
+				if hd := findFunc(storePkg, id.Name); hd != nil && hd.Body != nil {
+					ftype, fbody = hd.Type, hd.Body
+				}
+			}
+			if fbody == nil {
+				return true
+			}
+			var ps []string
+			if ftype.Params != nil {
+				for _, f := range ftype.Params.List {
+					for _, nm := range f.Names {
+						ps = append(ps, nm.Name)
+					}
+				}
+			}
+			var as []ast.Expr
+			for _, a := range ce.Args {
+				as = append(as, subst(a))
+			}
+			collect(fbody, ps, as, depth+1)
+			return true
+		})
+	}
+	collect(fd.Body, nil, nil, 0)
 	return res
 }
 
